@@ -36,6 +36,11 @@ def cases(tier, seed):
             yield dict(spec=spec)
 
 
+def pairs22_none(tier, T, pairs):
+    import itertools
+    return pairs if tier != 'quick' else list(itertools.combinations_with_replacement(T[:4], 2))[:6]
+
+
 def manager_cases(tier):
     import itertools
     from vf.props import c10
@@ -45,6 +50,9 @@ def manager_cases(tier):
         for p in pairs:
             yield dict(src=[s], tgt=list(p), ex='both', imputers='default')
             yield dict(src=list(p), tgt=[s], ex='both', imputers='default')
+    for s in pairs22_none(tier, T, pairs):      # single existence pattern: imputation onto designs with inactive variables
+        for t in pairs22_none(tier, T, pairs):
+            yield dict(src=list(s), tgt=list(t), ex='none', imputers='all')
     pairs22 = pairs if tier != 'quick' else list(itertools.combinations_with_replacement(T[:3], 2))
     for s in pairs22:
         for t in pairs22:
